@@ -84,7 +84,8 @@ func mutateORF(r *gen.Rand, orf string, rate float64, indels int) string {
 type seqSpec struct {
 	Name  string `json:"name"`
 	Seq   string `json:"seq"`
-	Exact bool   `json:"exact_copy"`     // contains the first reference ORF verbatim exactly once (forward strand)
+	Exact bool   `json:"exact_copy"`     // contains one of the reference ORFs verbatim exactly once over the strands searched
+	Ref   int    `json:"copy_of_ref"`    // which reference the copy was made from
 	RC    bool   `json:"reverse_strand"` // the copy sits on the reverse strand
 	Start int    `json:"copy_start"`     // where the copy starts (in the strand that holds it)
 }
@@ -106,12 +107,13 @@ func genPhaseCase(r *gen.Rand, maxSeqs int) phaseCase {
 	}
 	n := r.Range(3, maxSeqs)
 	for i := 0; i < n; i++ {
-		base := pc.Orfs[0]
-		if norf > 1 && r.Chance(0.3) {
-			base = pc.Orfs[r.Intn(norf)]
+		refIdx := 0
+		if norf > 1 && r.Chance(0.5) {
+			refIdx = r.Intn(norf)
 		}
+		base := pc.Orfs[refIdx]
 		copyS := base
-		exact := base == pc.Orfs[0]
+		exact := true
 		if r.Chance(0.6) {
 			copyS = mutateORF(r, base, r.PickF([]float64{0.01, 0.03, 0.08, 0.15}), r.Intn(3))
 			exact = false
@@ -119,7 +121,7 @@ func genPhaseCase(r *gen.Rand, maxSeqs int) phaseCase {
 		f5 := r.Str(r.PickInt([]int{0, 0, 1, 2, 3, 7, 20, 40}), "ACGT")
 		f3 := r.Str(r.PickInt([]int{0, 0, 1, 2, 5, 20, 40}), "ACGT")
 		s := f5 + copyS + f3
-		sp := seqSpec{Name: "s" + gen.Itoa(i), Start: len(f5)}
+		sp := seqSpec{Name: "s" + gen.Itoa(i), Start: len(f5), Ref: refIdx}
 		if pc.Reverse && r.Chance(0.4) {
 			s, _ = ref.RevComp(s)
 			sp.RC = true
@@ -130,9 +132,9 @@ func genPhaseCase(r *gen.Rand, maxSeqs int) phaseCase {
 		}
 		sp.Seq = s
 		if exact {
-			fw := strings.Count(strings.ToUpper(s), pc.Orfs[0])
+			fw := strings.Count(strings.ToUpper(s), base)
 			rc, _ := ref.RevComp(s)
-			rv := strings.Count(strings.ToUpper(rc), pc.Orfs[0])
+			rv := strings.Count(strings.ToUpper(rc), base)
 			sp.Exact = (fw+rv == 1) || (!pc.Reverse && fw == 1)
 			if sp.RC && !pc.Reverse {
 				sp.Exact = false
@@ -334,7 +336,12 @@ func checkResults(c *mon.Case, pc phaseCase, rs []res, tag string) {
 			_ = strand
 			S := cands[wantStrand]
 			if r.Pos != sp.Start || r.Pos+len(r.Nt) > len(S) || S[r.Pos:r.Pos+len(r.Nt)] != r.Nt {
-				fail("exact-copy-not-trimmed-at-its-start", "sequence %q = %s holds the reference ORF %s verbatim once at %d (reverse strand: %v) but Position=%d NtSeq=%s", r.Name, sp.Seq, pc.Orfs[0], sp.Start, sp.RC, r.Pos, r.Nt)
+				fail("exact-copy-not-trimmed-at-its-start", "sequence %q = %s holds the reference ORF %s verbatim once at %d (reverse strand: %v) but Position=%d NtSeq=%s", r.Name, sp.Seq, pc.Orfs[sp.Ref], sp.Start, sp.RC, r.Pos, r.Nt)
+				continue
+			}
+			// trimmed at the ATG of the copy: the codon sequence starts there too (nothing to skip to be in frame)
+			if off != 0 {
+				fail("exact-copy-codonseq-out-of-frame", "sequence %q holds the reference ORF verbatim and is trimmed at its start, but CodonSeq skips %d base(s): NtSeq=%s CodonSeq=%s", r.Name, off, r.Nt, r.Codon)
 				continue
 			}
 			c.Count("exact-copy-position-checked")
